@@ -649,9 +649,13 @@ func misc(thorough bool) {
 	urls := 0
 	for _, sch := range []string{"http", "https", "urn", ""} {
 		for _, host := range []string{"example.com", "[::1]:8080", "", "u:p@h", "xn--e1afmkfd.xn--p1ai", "h:0"} {
-			for _, path := range []string{"", "/", "/a b", "/a%2Fb", "/é", "/a;b", "a/b", "/a//b/", "/~a", "/a+b"} {
-				for _, q := range []string{"", "a=b&c=d", "a=%20", "a=+", "a"} {
-					for _, fr := range []string{"", "f", "a b", "%41"} {
+			// paths, queries and fragments are written as text (not escaped by the harness), so that every
+			// spelling a parsed URL remembers (RawPath, RawQuery, RawFragment: escapes net/url would not
+			// produce itself - of characters that need none, in lower-case hex, of reserved characters)
+			// has to survive the text form
+			for _, path := range []string{"", "/", "/a b", "/a%2Fb", "/a%2fb", "/é", "/caf%c3%a9", "/caf%C3%A9", "/%41", "/%7Ea", "/a;b", "a/b", "/a//b/", "/~a", "/a+b", "/a%20b", "/a%3Fb%23c"} {
+				for _, q := range []string{"", "a=b&c=d", "a=%20", "a=+", "a", "a=%2f&b=%41", "é=%C3%A9"} {
+					for _, fr := range []string{"", "f", "a%20b", "%2541", "%41", "a%2Fb", "a%2fb", "caf%c3%a9", "caf%C3%A9", "é", "%7Ea", "~a", "a/b?c", "!$&'()*+,;=:@", "a%23b", "/components/schemas/Pet%7EName"} {
 						s := ""
 						if sch != "" {
 							s = sch + ":"
@@ -664,7 +668,7 @@ func misc(thorough bool) {
 							s += "?" + q
 						}
 						if fr != "" {
-							s += "#" + url.PathEscape(fr)
+							s += "#" + fr
 						}
 						u, err := url.Parse(s)
 						if err != nil {
